@@ -224,7 +224,7 @@ if z3 is not None:
     net_of = z3.Function('ip_network', StrS, NET)
     is_ip = z3.Function('ip_address_accepts', StrS, BoolS)
     ip_of = z3.Function('ip_address', StrS, IP)
-    in_net = z3.Function('contains_Net', NET, IP, BoolS)       # `ip in network` (engine symbol for opaque `in`)
+    in_net = z3.Function('contains_Net_IP', NET, IP, BoolS)    # `ip in network` (engine symbol for opaque `in`)
 
     # ---- known_hosts tables
     ENTRY_T = 'tuple[opt[str],opt[opaque:Key],opt[opaque:Cert],opt[opaque:Subj]]'   # (marker, key, cert, subject)
@@ -448,6 +448,18 @@ if z3 is not None:
         return dict(blank=blank, fields_ok=fields_ok, marker_ok=marker_ok, marker=marker, pattern=pattern,
                     data=data, skip=skip, entry=entry, log=log)
 
+    log_wf = z3.Function('log_entries_have_a_credential', SLOG, BoolS)   # every entry has a key, cert or subject
+
+    def entry_has_credential(e):
+        p = entry_parts(e)
+        return z3.Or(p['key'][0], p['cert'][0], p['subj'][0])
+
+    def logwf_empty():
+        return [log_wf(z3.Empty(SLOG))]
+
+    def logwf_snoc(s, x):
+        return [log_wf(z3.Concat(s, z3.Unit(x))) == z3.And(log_wf(s), entry_has_credential(LOG.accessor(0, 2)(x)))]
+
     def khf_empty(x509):
         return [kh_file(z3.Empty(SSTR), x509) == z3.Empty(SLOG)]
 
@@ -466,7 +478,7 @@ if z3 is not None:
     mk_entry = z3.Function('authorized_key_entry', StrS, ENTRYS)
     entry_key = z3.Function('attr_Entry_key', ENTRYS, sort_of('opt[opaque:Key]'))       # engine symbols (attributes)
     entry_options = z3.Function('attr_Entry_options', ENTRYS, OPTS)
-    options_has = z3.Function('contains_Options', OPTS, StrS, BoolS)                    # name in entry.options
+    options_has = z3.Function('contains_Options_String', OPTS, StrS, BoolS)             # name in entry.options
 
     def ak_line(line):
         t = strip_s(line)
